@@ -296,6 +296,10 @@ def run_http(case):
             def responder(req, k):
                 if mode == 'drop':
                     return 'drop'
+                if mode == 'stall':
+                    return 'stall'
+                if mode == 'late':
+                    gevent.sleep(12.0)          # later than the relay's timeout (9 s)
                 hs = [('X-Smtp-Reply', reply_hdr)] if reply_hdr else []
                 data = response(status[0], status[1], hs)
                 if mode == 'truncated':
@@ -329,6 +333,8 @@ def judge_http(case):
     base = {'part': 'http', 'mode': mode}
     desc = 'HTTP %s %r X-Smtp-Reply=%r mode=%s -> %s %r; greenlet errors %r' % (status[0], status[1], reply_hdr, mode, whole, per, errors[:2])
     accepted = mode == 'ok' and 200 <= status[0] < 300
+    if mode in ('stall', 'late') and whole == 'raised:temp':
+        return []
     hdr_class = reply_hdr[0] if reply_hdr and reply_hdr != 'garbage' else None
     if mode == 'ok' and hdr_class is not None and ((hdr_class == '2') != accepted):
         # the origin contradicts itself (2xx status with an error reply header or vice versa): undefined
@@ -353,7 +359,7 @@ def judge_http(case):
             want = {'perm'} if 400 <= status[0] < 500 else {'temp'}       # documented mapping without a reply header
         if c not in want:
             out.append((dict(base, kind='wrong-error-class', reported=c, expected=','.join(want)), desc))
-    if mode in ('refused', 'drop', 'truncated') and not out and not all(v == 'temp' for v in per.values()):
+    if mode in ('refused', 'drop', 'truncated', 'stall', 'late') and not out and not all(v == 'temp' for v in per.values()):
         out.append((dict(base, kind='wrong-error-class', reported=sorted(set(per.values()))[0], expected='temp'), desc))
     return out
 
@@ -362,7 +368,7 @@ def http_cases():
     for st in HTTP_STATUS:
         for rh in HTTP_REPLY:
             yield (st, rh, 'ok')
-    for mode in ('refused', 'drop', 'truncated'):
+    for mode in ('refused', 'drop', 'truncated', 'stall', 'late'):
         yield (HTTP_STATUS[0], None, mode)
 
 
